@@ -37,6 +37,8 @@ OTHER = struct.pack("<HB", 0x2001, 0)
 STALE = [
     ("ul-init-exp", bytes([0x43]) + OTHER + b"\x09\x09\x09\x09"),
     ("dl-init", bytes([0x60]) + OTHER + bytes(4)),
+    ("ul-init-exp-sub", bytes([0x43]) + MUX[:2] + b"\x01" + b"\x09\x09\x09\x09"),     # same index, other sub-index
+    ("dl-init-sub", bytes([0x60]) + MUX[:2] + b"\x01" + bytes(4)),
     ("ul-seg-t0", bytes([0x00]) + b"\x09" * 7),
     ("ul-seg-t1", bytes([0x10]) + b"\x09" * 7),
     ("dl-seg-t0", bytes([0x20]) + bytes(7)),
@@ -54,7 +56,7 @@ KINDS_REF = ["exp-dl", "seg-dl", "exp-ul", "seg-ul", "seg-ul-nosize", "blk-dl", 
 def bounds(tier):
     return {"max_deviations": 1 if tier == "quick" else 2,
             "lengths": "{1,4,5,7,8,14,15}; block: {1,7,8,15,22}" + ("" if tier == "quick" else " + {889, 890}"),
-            "fault_alphabet": ["lost", "late", "abort", "toggle", "scs", "mux", "dup"] + ["stale:" + s[0] for s in STALE]}
+            "fault_alphabet": ["lost", "late", "abort", "toggle", "scs", "mux", "mux-hi", "mux-sub", "dup"] + ["stale:" + s[0] for s in STALE]}
 
 
 def cases(tier, seed):
@@ -193,7 +195,7 @@ class Link:
         if is_segment_resp:
             alts.append("toggle")
         if has_mux:
-            alts.append("mux")
+            alts += ["mux", "mux-hi", "mux-sub"]
         alts += ["stale:" + s[0] for s in STALE]
         label = f"resp{self.step}:{'blkseg' if seg_phase else 'scs%d' % scs}"
         k = self.ch.choose(len(alts), label)
@@ -225,6 +227,10 @@ class Link:
             return [bytes([r[0] ^ 0x10]) + r[1:]]
         if a == "mux":
             return [r[:1] + bytes([r[1] ^ 1]) + r[2:]]
+        if a == "mux-hi":
+            return [r[:2] + bytes([r[2] ^ 0x10]) + r[3:]]
+        if a == "mux-sub":
+            return [r[:3] + bytes([r[3] ^ 1]) + r[4:]]
         raise KeyError(a)
 
     def _to_client(self, frame):
